@@ -124,6 +124,10 @@ impl core::hash::Hasher for VpRecHasher {
     *out = h.buf; h.n
 }
 #[no_mangle] #[inline(never)] pub fn vp_mont_ct_eq(a: &[u8; 32], b: &[u8; 32]) -> u8 { MontgomeryPoint(*a).ct_eq(&MontgomeryPoint(*b)).unwrap_u8() }
+// C15: the field-level core of EdwardsPoint::nonspec_map_to_curve (everything after the digest): Elligator2, conversion, the `expect`
+#[no_mangle] #[inline(never)] pub fn vp_ed_nonspec_core(r: &FieldElement, sign: u8, out: &mut EdwardsPoint) -> bool {
+    match crate::montgomery::elligator_encode(r).to_edwards(sign) { Some(p) => { *out = p; true } None => false }
+}
 #[no_mangle] #[inline(never)] pub fn vp_mont_elligator_encode(r: &FieldElement) -> [u8; 32] { crate::montgomery::elligator_encode(r).to_bytes() }
 
 // Ristretto
@@ -216,6 +220,7 @@ pub mod raw {
             "vp_ed_to_montgomery" => wr(&vp_ed_to_montgomery(&rd::<EP>(a[0])), out),
             "vp_mont_to_edwards" => { let mut p = EdwardsPoint::identity(); let ok = vp_mont_to_edwards(&rd::<B32>(a[0]), rd::<u8>(a[1]), &mut p); out.push(ok as u8); wr(&p, out) }
             "vp_mont_ct_eq" => out.push(vp_mont_ct_eq(&rd::<B32>(a[0]), &rd::<B32>(a[1]))),
+            "vp_ed_nonspec_core" => { let mut p = EdwardsPoint::identity(); let ok = vp_ed_nonspec_core(&rd::<FE>(a[0]), rd::<u8>(a[1]), &mut p); out.push(ok as u8); wr(&p, out) }
             "vp_mont_elligator_encode" => wr(&vp_mont_elligator_encode(&rd::<FE>(a[0])), out),
             "vp_ris_decompress" => { let mut p = EdwardsPoint::identity(); let ok = vp_ris_decompress(&rd::<B32>(a[0]), &mut p); out.push(ok as u8); wr(&p, out) }
             "vp_ris_compress" => wr(&vp_ris_compress(&rd::<EP>(a[0])), out),
